@@ -100,7 +100,7 @@ def c08_task(arg):
             out["transitions"] += st["reads"]
             for sig, det in v:
                 out["violations"].append((sig, dict(mode=mode, prune=prune, option=oname, sizes=sizes, detail=det), rp))
-            if arg.get("dynamic") and oname in arg.get("dynamic_options", ("auto", "user=auto+2")):
+            if arg.get("dynamic") and oname in arg.get("dynamic_options", ("auto", "auto+pad1", "user=auto+2")):
                 for e in range(len(eps_py)):
                     del trace[:]
                     gs = init_with_rng(g, None, eps=e, seed=arg.get("seed", 0))
